@@ -234,9 +234,11 @@ func checkC16(c *Ctx, r *Report) {
 	r.rule("C16.R2", "no unguarded dereference of an optional field-parameter pointer", 2)
 	r.rule("C16.R3", "every scanning loop makes progress", 3)
 	r.rule("C16.R4", "primitive parser errors are tested on their own result", 4)
+	r.rule("C16.R6", "the tag a member is matched against is the declared tag number in full width (a narrowed number makes the decoder accept an element with another tag instead of reporting it; shared with C04.R11)", 1)
 	r.rule("C16.R5", "reflect Set in the special-type cases is type-correct", 3)
 
 	posts := c16Posts(c, r, "C16.R1")
+	checkParseWidths(c, r, "C16.R6", c.fn("cdr/asn", "parseFieldParameters"))
 	// the decode path: the package functions reachable from the entry points that take the input octets
 	for _, name := range []string{"parseTagAndLength", "parseBitString", "parseInt64", "ParseField", "UnmarshalWithParams", "Unmarshal"} {
 		c.fn("cdr/asn", name) // anchors
